@@ -344,7 +344,7 @@ def classify(mm):
         re = mm.get("real_entries") or mm.get("real_msgs") or []
         if mm.get("send_errors"):
             return "DevCount8Wrap", "send"
-        if any("UNDECODABLE" in x for x in mm.get("real_only", [])):
+        if any("UNDECODABLE" in x for x in (mm.get("real_only") or [])):
             return "DevCount8Wrap", "encode"
 
         def strip(x, *drop):
